@@ -108,6 +108,12 @@ void setup_segmentation(PictureControlSet *pcs_ptr, SequenceControlSet *scs_ptr,
         segmentation_params->segmentation_temporal_update =
             EB_FALSE; //!(pcs_ptr->parent_pcs_ptr->av1FrameType == KEY_FRAME || pcs_ptr->parent_pcs_ptr->av1FrameType == INTRA_ONLY_FRAME);
         find_segment_qps(segmentation_params, pcs_ptr);
+        // keep every segment's qindex in [1, 255]: qindex 0 would make the segment lossless for the
+        // decoder (lossless coding is not implemented by the encoder), above 255 is outside the quantizer tables
+        const int32_t base_q_idx = pcs_ptr->parent_pcs_ptr->frm_hdr.quantization_params.base_q_idx;
+        for (int i = 0; i < MAX_SEGMENTS; i++)
+            segmentation_params->feature_data[i][SEG_LVL_ALT_Q] = (int16_t)CLIP3(
+                1 - base_q_idx, 255 - base_q_idx, segmentation_params->feature_data[i][SEG_LVL_ALT_Q]);
         temporally_update_qps(segment_qps,
                               rateControlLayerPtr->prev_segment_qps,
                               segmentation_params->segmentation_temporal_update);
